@@ -30,7 +30,15 @@ type Parked struct {
 	ID    int
 	Name  string
 	Bytes []byte
+	Owner int // which caller issued the Store (from the context; 0 when not given)
 	ch    chan storeDecision
+}
+
+type storeOwnerKey struct{}
+
+// WithStoreOwner marks every Store issued under the returned context as coming from owner.
+func WithStoreOwner(c context.Context, owner int) context.Context {
+	return context.WithValue(c, storeOwnerKey{}, owner)
 }
 
 type storeDecision struct {
@@ -164,6 +172,9 @@ func (d *SimDisk) Store(ctx context.Context, name string, b []byte) error {
 	}
 	if d.scheduled {
 		p := &Parked{ID: d.nextID, Name: name, Bytes: cp, ch: make(chan storeDecision)}
+		if o, ok := ctx.Value(storeOwnerKey{}).(int); ok {
+			p.Owner = o
+		}
 		d.nextID++
 		d.parked = append(d.parked, p)
 		d.mu.Unlock()
@@ -257,6 +268,9 @@ func (d *SimDisk) ParkedSorted() []*Parked {
 	sort.Slice(ps, func(i, j int) bool {
 		if ps[i].Name != ps[j].Name {
 			return ps[i].Name < ps[j].Name
+		}
+		if ps[i].Owner != ps[j].Owner {
+			return ps[i].Owner < ps[j].Owner
 		}
 		return ps[i].ID < ps[j].ID
 	})
